@@ -35,7 +35,7 @@ ASSUMPTIONS = [
     'footprint: every read between start and end of a load lies inside the extents (first TIF marker / PR header .. end of last trailer) of the data '
     'records that contain requested frames, plus at most the 12 byte TIF marker + 4 byte header that immediately follows such a record',
 ]
-PROBES = ['alternate_data_pass', 'stepped_cross_record_indirect', 'slice_starts_inside_record', 'only_short_last_record', 'subset_without_ch0', 'multi_sample', 'reused_chlist',
+PROBES = ['two_files_interleaved', 'alternate_data_pass', 'stepped_cross_record_indirect', 'slice_starts_inside_record', 'only_short_last_record', 'subset_without_ch0', 'multi_sample', 'reused_chlist',
           'two_log_passes', 'irregular_records', 'indirect_x', 'direct_x', 'tif', 'burst', 'up_log', 'time_log', 'tables', 'load_after_load_other_pass',
           'last_x_checked']
 
@@ -79,7 +79,14 @@ def gen_ops(rng, model):
 def generate(seed, tier):
     rng = seeds.Rng(seed)
     model = LL.gen_model(rng, max_frames=rng.pick([8, 30, 120]), allow_alt=True)
-    return {'world': 'lis_logical', 'model': model, 'ops': gen_ops(rng, model)}
+    sc = {'world': 'lis_logical', 'model': model, 'ops': gen_ops(rng, model)}
+    if rng.chance(0.2):
+        # a second file, reader, index and log passes are alive at the same time: [k, fi] = before operation k all frames of log
+        # pass fi of the other file are loaded
+        other = LL.gen_model(seeds.Rng(rng.getrandbits(32)), max_frames=8, allow_alt=True)
+        npass = len(LL.passes_of(other))
+        sc['shadow'] = {'model': other, 'steps': [[k, rng.randrange(npass)] for k in sorted(rng.randrange(0, len(sc['ops']) + 1) for _ in range(rng.randrange(1, 5)))]}
+    return sc
 
 
 def expected_matrix(f, rows, cols):
@@ -188,7 +195,28 @@ def execute(scenario):
     op_shapes = []
     shared_list = {}
     prev_fi = None
-    for k, op in enumerate(scenario['ops']):
+    shadow = None
+    if scenario.get('shadow'):
+        res.probe('two_files_interleaved')
+        sh_model = scenario['shadow']['model']
+        sh_by, sh_layout = LL.build(sh_model)
+        try:
+            sh_rd = File.FileRead(SimFile(sh_by, clock, name='other.lis'), 'other.lis', False)
+            sh_idx = FileIndexer.FileIndex(sh_rd)
+            shadow = (sh_rd, [lp.logPass for lp in sh_idx.genLogPasses()], [p[2] for p in LL.passes_of(sh_model)])
+            if len(shadow[1]) != len(shadow[2]):
+                res.violation('log-pass-count', f'second file: {len(shadow[1])} log passes found, {len(shadow[2])} written', second_file=True,
+                              alternate=any(f_.get('alt') for f_ in sh_model['files']))
+                shadow = None
+        except Exception as err:
+            res.violation('index-exception', f'second file: {type(err).__name__}: {err}', exc=type(err).__name__, tif=sh_layout['tif'], second_file=True)
+    for k, op in enumerate(list(scenario['ops']) + [None]):
+        if shadow is not None:
+            for kk, sfi in scenario['shadow']['steps']:
+                if kk == k:
+                    shadow_step(res, shadow, sfi, k)
+        if op is None:
+            break
         _, fi, sl, chans, reuse = op
         if fi >= len(lps):
             continue
@@ -290,9 +318,35 @@ def execute(scenario):
     return res
 
 
+def shadow_step(res, shadow, sfi, k):
+    """All frames of one log pass of the second file (alive at the same time), held to what was written there."""
+    sh_rd, sh_lps, sh_pm = shadow
+    res.op('shadow_load')
+    lp, fm = sh_lps[sfi], sh_pm[sfi]
+    try:
+        lp.setFrameSet(sh_rd, None, None)
+        got = lp.frameSet.frames
+    except Exception as err:
+        res.violation('load-exception', f'before op {k}: second file, log pass {sfi}: {type(err).__name__}: {err}', exc=type(err).__name__, second_file=True,
+                      indirect=fm['dfsr']['indirect'])
+        return
+    exp = expected_matrix(fm, list(range(len(fm['frames']))), list(range(len(fm['dfsr']['channels']))))
+    res.ev('shadow', k, sfi, list(got.shape))
+    if got.shape != exp.shape or np.ascontiguousarray(got).tobytes() != exp.tobytes():
+        res.violation('frames-values' if got.shape == exp.shape else 'frames-shape',
+                      f'before op {k}: second file, log pass {sfi}: loaded frames {got.shape} differ from what was written to that file {exp.shape}',
+                      second_file=True, indirect=fm['dfsr']['indirect'])
+
+
 def candidates(scenario):
     import copy
     ops = scenario['ops']
+    if scenario.get('shadow'):
+        yield {k: v for k, v in scenario.items() if k != 'shadow'}
+        st = scenario['shadow']['steps']
+        for j in range(len(st)):
+            if len(st) > 1:
+                yield dict(scenario, shadow=dict(scenario['shadow'], steps=st[:j] + st[j + 1:]))
     model = scenario['model']
     for k in range(len(ops) - 1, -1, -1):
         yield dict(scenario, ops=ops[:k] + ops[k + 1:])
